@@ -114,7 +114,8 @@ func buildEvidence(prop, tier string, seed uint64, plan Plan, results []runOut, 
 		"runs_that_died":      died,
 		"harness_errors":      harnessErrs,
 		"known_findings_seen": knownLines,
-		"race_build":          plan.Race || plan.RaceEvery > 0,
+		"race_build":          plan.Race || plan.RaceEvery > 0 || plan.RaceFrom > 0,
+		"race_build_from":     plan.RaceFrom,
 		"race_build_every":    plan.RaceEvery,
 		"real_components":     []string{"all of the repository (instrumented scratch copy of the working tree)", "goleveldb", "cache2go", "x/crypto/ocsp", "net/http client above RoundTripper", "encoding/asn1", "zap"},
 		"stubbed_components":  []string{"network below http.RoundTripper (simulated origins/responders)", "wall clock and timers (testing/synctest fake clock)", "goroutine scheduling choice (own scheduler)", "file system below goleveldb storage.Storage and os.* (real files on tmpfs behind a fault-injecting wrapper)", "Caddy itself (validator built from JSON, zero caddy.Context)"},
